@@ -52,6 +52,24 @@ Definition exact_table (a : alt) (pl pu : Q) : Q :=
 Lemma exact_table_is_model a pl pu : pick_alt a pl pu = exact_table a pl pu.
 Proof. destruct a; reflexivity. Qed.
 
+(* ---- scalar formulas of the source (obligations G4) ---- *)
+(* Monte-Carlo p-value (H + c)/(reps + c): k_sample, bivariate_k_sample, simulate_ts_dist, sim_npc's partial p-values *)
+Definition mc_pvalue (H c r : Q) : Q := (H + c) / (r + c).
+Lemma mc_pvalue_is_model c H reps : perm_pvalue c H reps = mc_pvalue (qn H) (qn c) (qn reps).
+Proof. reflexivity. Qed.
+(* npc: row p-values from min-ranks, final count *)
+Definition npc_row (B Rk c : Q) : Q := (B - Rk + 1 + (2 # 1) * c) / (c + B).
+Definition npc_final (c hits B : Q) : Q := (c + hits) / (c + B).
+(* sprt thresholds *)
+Definition wald_A (alpha beta : Q) : Q := beta / (1 - alpha).
+Definition wald_B (alpha beta : Q) : Q := (1 - beta) / alpha.
+(* confidence intervals: level used by the solvers after the two-sided split *)
+Definition split_level (cl : Q) : Q := 1 - (1 - cl) / (2 # 1).
+
+Ltac formula_tac :=
+  intros; cbv beta delta [mc_pvalue npc_row npc_final wald_A wald_B split_level] iota;
+  first [reflexivity | field; auto | lra].
+
 (* the tactic used by the generated obligations: case analysis on every min, then linear arithmetic *)
 Lemma Qmin_cases a b : (a <= b /\ Qmin a b = a) \/ (b < a /\ Qmin a b = b).
 Proof.
